@@ -60,7 +60,7 @@ RARE = {"cosmix": 0.25}
 # models that draw from the process-wide generator without a seed parameter of their own: inside a pipeline they are
 # reproducible only through the pipeline seed (they are never put in 'own-seeds' pipelines)
 PIPE_NOSEED = {
-    "multiplication_register": ("charge_transfer", ("CCD",), [{"total_gain": 5, "gain_elements": 4}, {"total_gain": 20, "gain_elements": 10}], ["pixel"]),
+    "multiplication_register": ("charge_transfer", ("CCD",), [{"total_gain": 5, "gain_elements": 4}, {"total_gain": 8, "gain_elements": 6}], ["pixel"]),
     "multiplication_register_cic": ("charge_transfer", ("CCD",), [{"total_gain": 5, "gain_elements": 4, "pcic_rate": 0.01, "scic_rate": 0.005}], ["pixel"]),
     "sar_adc_with_noise": ("readout_electronics", ("CCD", "CMOS", "MKID", "APD"), [{"strengths": [0.0] * 16, "noises": [0.01] * 16}], ["signal"]),
 }
@@ -196,8 +196,13 @@ def generate(rng, tier):
         add("simple_dark_current", 1.0)
     pipe.setdefault("charge_collection", []).append({"name": "simple_collection", "func": "pyxel.models.charge_collection.simple_collection", "enabled": True, "arguments": {}})
     add("fixed_pattern_noise", 0.4)
-    add("multiplication_register", 0.3)
-    add("multiplication_register_cic", 0.2)
+    # the EMCCD registers loop over every electron: only behind sources of a few hundred electrons per pixel, one per pipeline
+    heavy = {"dark_current", "dark_current_rule07", "radiation_induced_dark_current", "charge_deposition", "charge_deposition_in_mct", "cosmix"}
+    if not any(m["name"] in heavy for ms in pipe.values() for m in ms):
+        if rng.random() < 0.6:
+            add("multiplication_register", 0.45)
+        else:
+            add("multiplication_register_cic", 0.45)
     add("nghxrg", 0.25)
     probe("charge_measurement", "meas", ["signal"], rng.choice([0, 1]))
     add("output_node_noise", 0.5)
